@@ -293,20 +293,32 @@ def d4(cx: Cx, ob: Ob) -> None:
     for s, recs, line in loader_ctor(cx, ob, m):
         ob.site(f"{where(m, line)} {m.qualname}", show(recs)[:80])
         prov = Prov(s)
-        groups = [t for t, _, _ in s.all_terms() for x in subterms(t) if op(x) == "new" and x[1] == "defaultdict"]
         dd = None
         for t, _, _ in s.all_terms():
             for x in subterms(t):
                 if op(x) == "new" and x[1] == "defaultdict":
                     dd = x
         if dd is None:
+            # plain dict filled with d.setdefault(k, []).append(v)
+            for ev, _ in s.walk():
+                if ev.kind == "expr" and callee_name(ev.a) == "append" and op(ev.a[1][1]) == "call" and callee_name(ev.a[1][1]) == "setdefault" and op(ev.a[1][1][1][1]) == "new":
+                    dd = ev.a[1][1][1][1]
+        if dd is None:
             ob.undecide("from_reverse_prefix_map grouping structure not recognised")
             continue
         # grouping: dd[<value of the mapping>].append(<key of the mapping>)
         ok_group = False
-        for ev, ctx in s.mutations_of(dd):
-            if ev.kind == "expr" and callee_name(ev.a) == "append" and op(ev.a[1][1]) == "item":
-                gk, gv = ev.a[1][1][2], ev.a[2][0]
+        for ev, ctx in s.walk():
+            if not (ev.kind == "expr" and callee_name(ev.a) == "append"):
+                continue
+            recv = ev.a[1][1]
+            gk = None
+            if op(recv) == "item" and recv[1] == dd:
+                gk = recv[2]
+            elif op(recv) == "call" and callee_name(recv) == "setdefault" and recv[1][1] == dd and len(recv[2]) == 2 and op(recv[2][1]) in ("list", "display0", "new"):
+                gk = recv[2][0]
+            if gk is not None:
+                gv = ev.a[2][0]
                 lp = ctx.loops[-1] if ctx.loops else None
                 if lp is not None and op(lp.a) == "tuple" and len(lp.a[1]) == 2:
                     if lp.b != ("call", ("attr", ("call", PREP, (data,), ()), "items"), (), ()):
